@@ -240,10 +240,15 @@ def shard(shard_i, nshards, payload):
                    {"k": "raw", "text": "PROGRAM DupName\nVAR y : INT; END_VAR\ny := 2;\nEND_PROGRAM"}]
             same = {"k": "raw", "text": "FUNCTION_BLOCK SameTwice\nVAR x : INT; END_VAR\nx := 1;\nEND_FUNCTION_BLOCK"}
             samet = {"k": "raw", "text": "TYPE\n  SameType : (sa, sb);\nEND_TYPE"}
+            dupbad = [{"k": "raw", "text": "PROGRAM DupHalfBad\nVAR x : INT; END_VAR\nx := 1;\nEND_PROGRAM"},
+                      {"k": "raw", "text": "PROGRAM DupHalfBad\nVAR y : INT; END_VAR\ny := notDeclaredAnywhere;\nEND_PROGRAM"}]
             for extra, code, tag in ((cyc, "P0010", "fault:cycle"), (dup, "P0020", "fault:duplicate"),
+                                     (dupbad, "P0020", "fault:duplicate-one-copy-faulty"),
                                      ([same, dict(same)], "P0020", "fault:identical-twice"),
                                      ([samet, dict(samet)], "P0019", "fault:identical-type-twice")):
-                m = list(decls[:3])
+                # among the first declarations of the unit, or (every other time) among all of them: function blocks and
+                # programs with their arrays, instances and externals are then part of the set
+                m = list(decls) if len(decls) <= 6 and rng.random() < 0.5 else list(decls[:3])
                 m.insert(rng.randrange(len(m) + 1), extra[0])
                 m.insert(rng.randrange(len(m) + 1), extra[1])
                 run_unit(probe, res, m, code, tag, rng, max(60, payload["budget"] // 4), (), presence_only=True)
